@@ -5,7 +5,7 @@ secure framing in both directions, and is scripted per connection.  It is scaffo
 interest with the *unpatched* controller code; the protocol oracle stays the Lean spec of C01/C05.
 
 per-connection verify modes:
-  ok | wrongid | badsig | err<step><code> | close<step> | http470 | hang | exc | oksubdrop
+  ok | wrongid | badsig | err<step><code> | close<step> | reset<step> | http470 | hang | exc | oksubdrop
   (`oksubdrop` completes pair-verify and then closes the connection at the first request of the new session)
   (`exc` answers M1 with a body that makes the controller's generator raise a non-HomeKit exception)
 """
@@ -164,6 +164,8 @@ class Accessory:
             return
         if mode == f"close{s.step}":
             return t.peer_close()
+        if mode == f"reset{s.step}":
+            return t.peer_reset()  # abortive: connection_lost(ConnectionResetError) without an EOF before it
         if mode == "http470" and s.step == 1:
             return self.send(t, http(b"", code=b"470 Connection Authorization Required"))
         if mode.startswith("err") and s.step == int(mode[3]):
